@@ -1453,16 +1453,27 @@ PPTX_POS = [(0, 0), (0, 0), (914400, 0), (914400, 914400), (0, 914400), None, No
 
 
 def odp_deck_file(slides) -> bytes:
-    """slides: list of frame lists; frame = (x, y, kind, payload); kind in table / text / empty"""
+    """slides: list of item lists; item = (x, y, kind, payload) with kind in table / text / empty,
+    or ("g", [items]) for a draw:g group (nesting allowed)"""
+    def item_xml(it):
+        if it[0] == "g":
+            return "<draw:g>" + "".join(item_xml(k) for k in it[1]) + "</draw:g>"
+        x, y, kind, payload = it
+        a = "".join(f' svg:{k}="{v}"' for k, v in (("x", x), ("y", y)) if v is not None)
+        body = nd_xml(payload) if kind == "table" else ("<draw:text-box><text:p>" + xesc(payload) + "</text:p></draw:text-box>" if kind == "text" else "")
+        return f'<draw:frame{a} svg:width="5cm" svg:height="2cm">{body}</draw:frame>'
     pages = ""
-    for si, frames in enumerate(slides):
-        inner = ""
-        for x, y, kind, payload in frames:
-            a = "".join(f' svg:{k}="{v}"' for k, v in (("x", x), ("y", y)) if v is not None)
-            body = nd_xml(payload) if kind == "table" else ("<draw:text-box><text:p>" + xesc(payload) + "</text:p></draw:text-box>" if kind == "text" else "")
-            inner += f'<draw:frame{a} svg:width="5cm" svg:height="2cm">{body}</draw:frame>'
-        pages += f'<draw:page draw:name="s{si}">{inner}</draw:page>'
+    for si, items in enumerate(slides):
+        pages += f'<draw:page draw:name="s{si}">' + "".join(item_xml(it) for it in items) + '<presentation:notes><draw:frame><draw:text-box><text:p>n</text:p></draw:text-box></draw:frame></presentation:notes></draw:page>'
     return odf_file(f"<office:presentation>{pages}</office:presentation>", "presentation")
+
+
+def flat_frames(items):
+    for it in items:
+        if it[0] == "g":
+            yield from flat_frames(it[1])
+        else:
+            yield it
 
 
 def ranks(keys):
@@ -1477,25 +1488,22 @@ def coq_deck(slides):
 
 
 def odp_deck_run(data: bytes):
+    """-> (pages as parsed, every draw:frame annotated with the ranks of its position, tables or None, dims, error)"""
     from sharepoint2text.parsing.extractors.open_office import odp_extractor as ODP
     root = content_root(data)
-    slides, keys = [], []
-    for page in root.iter("{%s}page" % NSMAP["draw"]):
-        sl = []
-        for f in page.findall("{%s}frame" % NSMAP["draw"]):
-            k = (ODP._parse_odf_length_to_px(f.get("{%s}y" % NSMAP["svg"])), ODP._parse_odf_length_to_px(f.get("{%s}x" % NSMAP["svg"])))
-            tb = f.find("{%s}table" % NSMAP["table"])
-            sl.append((k, None if tb is None else nd_from_et(tb)))
-            keys.append(k)
-        slides.append(sl)
-    rk = iter(ranks(keys))
-    slides = [[(*next(rk), tb) for _, tb in sl] for sl in slides]
+    pages = list(root.iter("{%s}page" % NSMAP["draw"]))
+    frames = [f for pg in pages for f in pg.iter("{%s}frame" % NSMAP["draw"])]
+    keys = [(ODP._parse_odf_length_to_px(f.get("{%s}y" % NSMAP["svg"])), ODP._parse_odf_length_to_px(f.get("{%s}x" % NSMAP["svg"]))) for f in frames]
+    for f, (ry, rx) in zip(frames, ranks(keys)):
+        f.set("rank:y", str(ry))
+        f.set("rank:x", str(rx))
+    nds = [nd_from_et(pg) for pg in pages]
     try:
         c = next(iter(ODP.read_odp(io.BytesIO(data))))
         tabs, dims = tables_of(c)
-        return slides, tabs, dims, None
+        return nds, tabs, dims, None
     except Exception as e:  # noqa
-        return slides, None, None, type(e).__name__ + ": " + str(getattr(e, "__cause__", None) or e)[:120]
+        return nds, None, None, type(e).__name__ + ": " + str(getattr(e, "__cause__", None) or e)[:120]
 
 
 def pptx_deck_file(slides) -> bytes:
@@ -1557,18 +1565,18 @@ def deck_cases(ctx, batch, n):
     """several slides, frames of different kinds, positions equal / missing / unparseable / descending"""
     rng = ctx.rng
     DT = "list (list (nat * nat * option xml)) * option (list (list (list str)))"
-    b_od = batch("odpdeck", "corr_odp_deck", DT)
+    b_od = batch("odpdeck", "corr_odp_deck", "list xml * option (list (list (list str)))")
     b_pd = batch("pptxdeck", "(corr_pptx_deck py_is_ws)", DT)
     set_selfclose("never")
     def small():
         return [[[[rtext(rng, 1, 2, "abcXY")]] for _ in range(rng.randint(1, 2))] for _ in range(rng.randint(1, 2))]
     for i in range(n):
         mode = ["random", "same", "missing", "descending", "sorted"][i % 5]
-        # ---- ODP
+        # ---- ODP (frames directly on the page and inside draw:g groups, nested)
         slides, src = [], []
         for si in range(rng.randint(1, 3)):
             frames = []
-            for fi in range(rng.randint(1, 4)):
+            for fi in range(rng.randint(1, 5)):
                 if mode == "random":
                     x, y = rng.choice(ODP_POS), rng.choice(ODP_POS)
                 elif mode == "same":
@@ -1584,18 +1592,30 @@ def deck_cases(ctx, batch, n):
                 frames.append((x, y, kind, odf_r_ftable(g) if kind == "table" else "txt"))
                 if kind == "table":
                     src.append((si, fi, [["\n".join(para_text(p) for p in c) for c in r] for r in g]))
-            slides.append(frames)
+            # wrap runs of consecutive frames into groups (document order is kept)
+            items, k = [], 0
+            while k < len(frames):
+                ln = rng.randint(1, 3)
+                run = list(frames[k:k + ln])
+                depth = rng.choice([0, 0, 1, 1, 2])
+                for _ in range(depth):
+                    run = [("g", run)]
+                items += run
+                k += ln
+            slides.append(items)
         data = odp_deck_file(slides)
-        ms, tabs, dims, err = odp_deck_run(data)
-        b_od.add(f"({coq_deck(ms)}, " + ("None" if tabs is None else f"(Some {coq_tables(tabs)})") + ")", ("odpdeck", mode, repr(slides)[:300]))
-        ctx.case(("odpdeck", repr([[f[:3] for f in sl] for sl in slides]), repr(src)), bool(tabs), "odp:deck-" + mode)
-        desc = [[(f[0], f[1], f[2]) for f in sl] for sl in slides]
+        pages, tabs, dims, err = odp_deck_run(data)
+        b_od.add(f"({coq_list([coq_nd(pg) for pg in pages])}, " + ("None" if tabs is None else f"(Some {coq_tables(tabs)})") + ")", ("odpdeck", mode, repr(slides)[:300]))
+        def shape(items):
+            return [("g", shape(it[1])) if it[0] == "g" else (it[0], it[1], it[2]) for it in items]
+        desc = [shape(sl) for sl in slides]
+        ctx.case(("odpdeck", repr(desc), repr(src)), bool(tabs), "odp:deck-" + mode)
         if tabs is None:
             ctx.finding("odp-deck-extraction-raised", f"ODP: read_odp fails for the whole deck ({err}) on frames (x, y, kind) per slide {desc!r}; every table of the deck is lost",
                         {"format": "odp", "slides": desc, "error": err, "tables": [s_[2] for s_ in src]})
         else:
             if sorted(map(repr, tabs)) != sorted(repr(s_[2]) for s_ in src):
-                ctx.finding("odp-deck-tables-lost-or-invented", f"ODP deck: tables {tabs!r} are not the source tables {[s_[2] for s_ in src]!r} (frames {desc!r})",
+                ctx.finding("odp-deck-tables-lost-or-invented", f"ODP deck: tables {tabs!r} are not the source tables {[s_[2] for s_ in src]!r} (frames, g = draw:g group: {desc!r})",
                             {"format": "odp", "slides": desc, "got": tabs, "want": [s_[2] for s_ in src]})
             elif mode in ("same", "missing", "sorted") and tabs != [s_[2] for s_ in src]:
                 ctx.finding("odp-deck-tables-out-of-source-order", f"ODP deck ({mode} positions): tables {tabs!r} are not in source order {[s_[2] for s_ in src]!r}",
@@ -1670,8 +1690,7 @@ def wrapper_cases(ctx, B):
                     if len(tabs) == 1:
                         B["odptree"].add(f"({coq_int_table(int_table(tbls[0], {'text:c'}))}, {coq_nd(tbls[0])}, {coq_sgrid(tabs[0])})", ("wrap", "odp", name))
                     if tabs != [g]:
-                        key = "odp-rows-in-table-rows-or-row-group-dropped" if ("table-rows" in name or "row-group" in name or name == "header+rows") else "odp-wrapped-rows-lost"
-                        ctx.finding(key, f"ODP: table rows inside {name} are not all returned: got {tabs!r} want {[g]!r}",
+                        ctx.finding("odp-rows-in-table-rows-or-row-group-dropped", f"ODP: table rows inside {name} are not all returned: got {tabs!r} want {[g]!r}",
                                     {"format": "odp", "table_xml": nd_xml(tb), "got": tabs, "want": [g]})
                 else:
                     tbls, tabs, _, err = ods_run(ods_file([tb]))
@@ -1739,7 +1758,7 @@ def run(ctx):
     ctx.assumptions += ["CPython 3.12 str/regex whitespace; int(str(n)) = n for the repeat counts the renderer writes"]
     gen_tables(ctx)
 
-    ok1, _ = ctx.prove("C13/Props.v", timeout=400, deps=["C13/ProofsHtml.vo", "C13/ProofsOds.vo", "C13/ProofsSheets.vo", "C13/ProofsTree.vo", "C13/ProofsRtf.vo", "C13/ProofsOrder.vo"],
+    ok1, _ = ctx.prove("C13/Props.v", timeout=400, deps=["C13/ProofsHtml.vo", "C13/ProofsOds.vo", "C13/ProofsSheets.vo", "C13/ProofsTree.vo", "C13/ProofsRtf.vo", "C13/ProofsOrder.vo", "C13/ProofsRows.vo"],
                        expected=["C13_get_dim_is_shape", "C13_get_dim_rect", "C13_xls_get_dim_is_shape",
                                  "C13_docx_tables_flat", "C13_docx_adjacent", "C13_docx_tables_preorder", "C13_docx_toplevel_refuted",
                                  "C13_pptx_table_roundtrip", "C13_odt_tables_flat", "C13_odt_nested_refuted", "C13_odp_table_flat", "C13_odp_cell_comment_skipped",
@@ -1749,6 +1768,7 @@ def run(ctx):
                                  "C13_xlsx_sheet_partial", "C13_xlsx_empty_header_refuted", "C13_xlsx_title_row_refuted",
                                  "C13_xlsx_typed_header_refuted", "C13_xlsx_date_header_refuted", "C13_xlsx_typed_values",
                                  "C13_ods_cell_comment_skipped", "C13_ods_nonfinite_kept_as_text",
+                                 "C13_table_rows_through_wrappers", "C13_ods_sheet_wrapped", "C13_odp_table_wrapped", "C13_slide_frames_groups",
                                  "C13_deck_tables_perm", "C13_deck_tables_source_order", "C13_slide_tables_same_position",
                                  "C13_rtf_tables_single", "C13_rtf_tables_single_gen", "C13_rtf_pad_rows_id", "C13_rtf_tables_long_separator", "C13_rtf_adjacent_tables_merged_refuted", "C13_rtf_get_dim",
                                  "C13_xls_sheet_partial", "C13_xls_duplicate_header_refuted",
